@@ -21,7 +21,7 @@ use std::sync::{Arc, Mutex};
 pub struct Threads;
 
 #[derive(Clone)]
-struct Item {
+pub struct Item {
     cfg: Cfg,
     ops: Vec<Op>,
     sig_seed: u64,
@@ -170,7 +170,168 @@ struct Slot {
     threads: Vec<usize>,
 }
 
+
+/// Work items of a cold-start case: small sinc / FFT / polynomial configurations whose construction goes
+/// through everything that is initialised lazily and process-wide (CPU-feature detection, FFT planners).
+/// A pure function of the seed: the parent and the freshly started child derive the same list.
+pub fn cold_items(seed: u64) -> Vec<Item> {
+    let mut rng = Rng::derive(&[seed, 0xC01D]);
+    let no_fft = std::env::var("RVMON_NO_FFT").is_ok();
+    (0..16)
+        .map(|k| {
+            let mut c = Cfg::default();
+            // three quarters sinc types (the users of the CPU-feature detection)
+            c.kind = if k % 4 == 3 && !no_fft { *rng.pick(&ALL_KINDS[..]) } else { *rng.pick(&[Kind::SincIn, Kind::SincOut]) };
+            c.channels = rng.ui(1, 2);
+            c.chunk = rng.ui(16, 96);
+            c.ratio = rng.logf(0.5, 2.0);
+            c.max_rel = 1.0;
+            c.sinc_len = 8 * rng.ui(1, 8);
+            c.oversampling = rng.ui(2, 33);
+            c.interp = *rng.pick(&ALL_INTERP);
+            c.window = *rng.pick(&ALL_WIN);
+            c.f_cutoff = rng.uf(0.6, 0.95) as f32;
+            c.degree = *rng.pick(&ALL_DEG);
+            c.fs_in = rng.ui(2, 48);
+            c.fs_out = rng.ui(2, 48);
+            c.sub_chunks = 1;
+            let ops = vec![Op::Proc { path: Path::Exact, slack_in: 0, slack_out: 0, mask: None, empty_inactive: false }; 3];
+            Item { cfg: c, ops, sig_seed: rng.next(), f32_: rng.bool(), faint: None, bads: Vec::new() }
+        })
+        .collect()
+}
+
+fn run_item(it: &Item) -> Option<u64> {
+    let mut r = AnyRunner::build(it).ok()?;
+    let mut h = 0u64;
+    for op in &it.ops {
+        h = mix(&[h, r.step(op, &[])]);
+    }
+    Some(h)
+}
+
+/// Entry point of the child process of a cold-start case (`rvmon cold-child <seed> <threads>`): nothing has
+/// touched the library yet; all threads are released together by a spin barrier and construct + drive
+/// their instances; one line `C <item> <hash|none>` per item on stdout.
+pub fn cold_child(args: &[String]) {
+    let seed: u64 = args.first().and_then(|v| v.parse().ok()).unwrap_or(0);
+    let n_threads: usize = args.get(1).and_then(|v| v.parse().ok()).unwrap_or(8).max(1);
+    let items = Arc::new(cold_items(seed));
+    let gate = Arc::new(AtomicUsize::new(0));
+    let mut handles = Vec::new();
+    for t in 0..n_threads {
+        let (items, gate) = (items.clone(), gate.clone());
+        handles.push(std::thread::spawn(move || {
+            gate.fetch_add(1, SeqCst);
+            while gate.load(SeqCst) < n_threads {
+                std::hint::spin_loop();
+            }
+            let mut res = Vec::new();
+            for (k, it) in items.iter().enumerate() {
+                if k % n_threads == t {
+                    res.push((k, run_item(it)));
+                }
+            }
+            res
+        }));
+    }
+    let mut out = String::new();
+    for h in handles {
+        match h.join() {
+            Ok(res) => {
+                for (k, v) in res {
+                    out.push_str(&match v {
+                        Some(x) => format!("C {} {}\n", k, x),
+                        None => format!("C {} none\n", k),
+                    });
+                }
+            }
+            Err(_) => {
+                eprintln!("cold child: a thread panicked");
+                std::process::exit(101);
+            }
+        }
+    }
+    print!("{}", out);
+}
+
 impl Threads {
+    /// Cold start: the reference is computed in this (warm) process; then fresh child processes are started
+    /// in which 8 or 16 threads, released together, construct and drive the same instances as the very
+    /// first thing the process does - the window in which lazily initialised process-wide state (CPU-feature
+    /// detection, planner caches) is being set up by one thread while the others already read it.
+    fn cold(&self, ctx: &Ctx, idx: u64, st: &mut Stats) -> CaseResult {
+        let mut rng = ctx.rng_for(idx);
+        let seed = ctx.sub_seed(idx, 0xC01D);
+        let n_children = rng.ui(2, 4);
+        let items = cold_items(seed);
+        let desc = J::obj().with("mode", J::s("cold start")).with("child_processes", J::u(n_children)).with("items_seed", J::Int(seed as i128)).with(
+            "first_configurations",
+            J::Arr(items.iter().take(3).map(|it| J::obj().with("sample", J::s(if it.f32_ { "f32" } else { "f64" })).with("cfg", it.cfg.json())).collect()),
+        );
+        set_desc(&desc);
+        let mut cr = CaseResult { desc, ..Default::default() };
+        if ctx.describe {
+            return cr;
+        }
+        let reference: Vec<Option<u64>> = items.iter().map(run_item).collect();
+        let exe = match std::env::current_exe() {
+            Ok(e) => e,
+            Err(e) => {
+                cr.inconclusive = Some(format!("current_exe: {}", e));
+                return cr;
+            }
+        };
+        let mut instances = 0u64;
+        for c in 0..n_children {
+            let n_threads = *rng.pick(&[8usize, 16]);
+            let out = match std::process::Command::new(&exe).arg("cold-child").arg(seed.to_string()).arg(n_threads.to_string()).output() {
+                Ok(o) => o,
+                Err(e) => {
+                    cr.inconclusive = Some(format!("could not start the child process: {}", e));
+                    return cr;
+                }
+            };
+            if !out.status.success() {
+                let err = String::from_utf8_lossy(&out.stderr);
+                let tail: String = err.lines().rev().take(6).collect::<Vec<_>>().into_iter().rev().collect::<Vec<_>>().join(" | ");
+                cr.viols.push(Viol::new("C18", "cold_start_child_failed", format!("child {} ({} threads constructing at process start) ended with {:?}: {}", c, n_threads, out.status.code(), tail)));
+                break;
+            }
+            let text = String::from_utf8_lossy(&out.stdout);
+            let mut seen = 0;
+            for l in text.lines() {
+                let mut w = l.split_whitespace();
+                if w.next() != Some("C") {
+                    continue;
+                }
+                let k: usize = w.next().and_then(|v| v.parse().ok()).unwrap_or(usize::MAX);
+                let h: Option<u64> = w.next().and_then(|v| v.parse().ok());
+                if k >= items.len() {
+                    continue;
+                }
+                seen += 1;
+                instances += 1;
+                if h != reference[k] && cr.viols.len() < 4 {
+                    cr.viols.push(Viol::new(
+                        "C18",
+                        "cold_start_differs_from_reference",
+                        format!("child {} ({} threads released together at process start): item {} ({} {}) differs from the reference computed in a warm process", c, n_threads, k, items[k].cfg.kind.name(), items[k].cfg.json().dump()),
+                    ));
+                }
+            }
+            if seen != items.len() {
+                cr.inconclusive = Some(format!("child {} reported {} of {} items", c, seen, items.len()));
+                return cr;
+            }
+        }
+        st.add("cold_start_cases", 1.0);
+        st.add("cold_start_processes", n_children as f64);
+        st.add("instances_constructed_at_process_start", instances as f64);
+        cr.class = Some(format!("cold|{}|{}", n_children, idx));
+        cr
+    }
+
     /// Construction storm: many threads construct small, differently configured instances at the same
     /// time (each configuration twice back to back, so that process-wide caches see hits while other
     /// threads insert), run one call on each and compare with a single-threaded reference.  Aims at
@@ -289,6 +450,9 @@ impl Monitor for Threads {
         }
     }
     fn case(&self, ctx: &Ctx, idx: u64, st: &mut Stats) -> CaseResult {
+        if idx % 8 == 5 && !cfg!(miri) {
+            return self.cold(ctx, idx, st);
+        }
         if idx % 4 == 3 {
             return self.storm(ctx, idx, st);
         }
